@@ -340,6 +340,57 @@ def do_replay_file(path, quiet=False):
     return 0, j
 
 
+def miri_crosscheck(prop, seed, n_hist, jobs, thorough=True):
+    """Best-effort cross-check (thorough tier of C02): the same generated histories,
+    replayed under Miri (system allocator, harness observation passes off). Sees what
+    the arena cannot: reads of uninitialised or moved-out memory that do not fault,
+    aliasing violations. Returns (histories replayed, list of (history line, report))."""
+    os.makedirs(SCRATCH, exist_ok=True)
+    r = subprocess.run([BIN, "dump", "--profile", prop, "--seed", str(seed), "--from", "0", "--to", str(n_hist)] + (["--thorough"] if thorough else []), stdout=subprocess.PIPE, stderr=subprocess.PIPE, text=True)
+    lines = [l for l in r.stdout.splitlines() if l.count("\t") == 2]
+    if not lines:
+        return 0, [], "no histories dumped"
+    k = max(1, min(jobs, len(lines) // 8))
+    files = []
+    for i in range(k):
+        path = os.path.join(SCRATCH, f"miri-{prop}-{os.getpid()}-{i}.txt")
+        with open(path, "w") as f:
+            f.write("\n".join(lines[i::k]) + "\n")
+        files.append(path)
+    env = dict(os.environ, MIRIFLAGS="-Zmiri-disable-isolation -Zmiri-ignore-leaks", CARGO_NET_OFFLINE="true")
+    # build the interpreter binary once, then run the shards in parallel
+    b = subprocess.run(["cargo", "+nightly", "miri", "run", "--offline", "--", "replay-many", "--file", "/dev/null"], cwd=SIM, env=env, stdout=subprocess.PIPE, stderr=subprocess.PIPE, text=True)
+    if "replayed" not in b.stdout:
+        return 0, [], "miri unavailable: " + (b.stderr.strip().splitlines() or ["?"])[-1][:200]
+
+    def shard(path):
+        p = subprocess.run(["cargo", "+nightly", "miri", "run", "--offline", "--", "replay-many", "--file", path], cwd=SIM, env=env, stdout=subprocess.PIPE, stderr=subprocess.PIPE, text=True)
+        done, last = 0, -1
+        for l in p.stdout.splitlines():
+            if '"progress"' in l:
+                last = json.loads(l)["line"]
+            if '"replayed"' in l:
+                done = json.loads(l)["replayed"]
+        report = None
+        if "Undefined Behavior" in p.stderr or (p.returncode != 0 and done == 0):
+            idx = p.stderr.find("error:")
+            report = p.stderr[idx: idx + 1200]
+            with open(path) as f:
+                hl = f.read().splitlines()
+            return (last if last >= 0 else 0), (hl[last] if 0 <= last < len(hl) else None, report)
+        return done, None
+
+    total, bad = 0, []
+    with cf.ThreadPoolExecutor(max_workers=k) as ex:
+        for done, rep in ex.map(shard, files):
+            total += done
+            if rep:
+                bad.append(rep)
+    for f in files:
+        os.remove(f)
+    return total, bad, None
+
+
 def finding_matches(fd, prop, v):
     return fd["property"] == prop and v.get("kind") in fd["kinds"] and fd["cause"] == v.get("cause")
 
@@ -446,6 +497,20 @@ def check_sim(prop, tier, seed, jobs):
                        "stub": ["payload value type (instrumented Node)", "global allocator (layout-scheduling arena)", "log backend (none installed)"]},
         "exhaustive": False,
     }
+    if prop == "C02" and thorough and not unlisted:
+        n_m = int(os.environ.get("VERIF_MIRI_HISTORIES", "640"))
+        total_m, bad_m, note = miri_crosscheck(prop, seed, n_m, jobs)
+        coverage["miri_crosscheck"] = {"histories_replayed_under_miri": total_m, "undefined_behaviour_reports": len(bad_m), "note": note or "system allocator, observation passes off; -Zmiri-ignore-leaks"}
+        if bad_m:
+            hist, report = bad_m[0]
+            os.makedirs(REPLAYS, exist_ok=True)
+            path = os.path.join(REPLAYS, f"C02-miri-seed{seed}.json")
+            with open(path, "w") as f:
+                json.dump({"property": "C02", "engine": "miri", "profile": "C02", "history_line": hist, "kind": "undefined-behaviour", "cause": "miri", "expect": {"report": report}}, f, indent=1)
+            write_evidence(prop, tier, seed, LEVEL.get(prop, "exploration"), coverage, time.time() - t0, len(bad_m))
+            print("violation kind=undefined-behaviour cause=miri msg=" + " ".join(report.split())[:300])
+            print(f"VIOLATION property={prop} replay={path}")
+            return 1
     if unlisted:
         unlisted.sort(key=lambda v: (v.get("seed", 1) != 0, len(v.get("ops", ""))))
         v = unlisted[0]
